@@ -305,7 +305,7 @@ def finish(rep):
         "the 1-D case of the lazy multi::fft::dft range and multi::fft::dft_backward(which, in) (adaptors/fft.hpp) are separate probes "
         "(harness/replay_fftw_probe.cpp): a compile failure is reported as a violation of kind 'compile'",
     ]
-    return rep.finish(level="trace_validation",
+    return rep.finish(level="model_checking",
                       rule="FftwGen.tla enumerates shape x mask x sign x API form x input layout x output layout (layout programs of bounded length "
                       "over rot/unrot/transp/rev/sub/str2/col); each case runs once on pseudo-random Gaussian-integer data; Fftw.tla validates "
                       "value equality with the direct DFT, input unchanged, frame (whole store with guard cells) and the round trip; "
